@@ -420,6 +420,21 @@ func (f *Footer) DecRef() {
 	f.m.Unlock()
 }
 
+// hasDroppedChildren returns true when this footer (recursively) holds
+// a child collection that does not feature in the given segmentStack
+// anymore, or features there as a newer incarnation, which means the
+// deletion of that child collection has yet to be persisted.
+func (f *Footer) hasDroppedChildren(ss *segmentStack) bool {
+	for cName, childFooter := range f.ChildFooters {
+		childStack, exists := ss.childSegStacks[cName]
+		if !exists || childStack.incarNum != childFooter.incarNum ||
+			childFooter.hasDroppedChildren(childStack) {
+			return true
+		}
+	}
+	return false
+}
+
 // Length returns the length of this footer
 func (f *Footer) Length() uint64 {
 	jBuf, err := json.Marshal(f)
